@@ -79,6 +79,10 @@ TG_SOLD0_Q = mc("TG_Sold0_q", Templates={"B6"}, Prices={1, 3}, Amts={1, 3}, MaxB
                 Dur=2, MaxMods=0, Bidders={"u2", "u3"}, Goals={"nothing_sold_early_settle"}, tc_max=1500)
 TG_SURPLUS_Q = mc("TG_Surplus_q", Templates={"B0"}, Prices={1, 2}, Amts={5, 6}, MaxBids=2, Tmax=3, Jump=2, CapSet={10}, StartOffsets={0}, CreateUntil=0,
                   MaxMods=0, MaxDon=2, BidKinds={"M"}, Bidders={"u2", "u3"}, Goals={"overdemand_with_surplus"}, tc_max=1500)
+TG_CLOSED_Q = mc("TG_Closed_q", WithInvalid=True, Templates={"B4", "F2"}, MaxAuc=1, Prices={1, 2}, Amts={1, 3}, MaxBids=1, Tmax=6, Jump=3, CapSet={5},
+                 StartOffsets={0, 1}, CreateUntil=0, Bidders={"u2"}, Goals={"closed_auction_op"}, tc_max=1500)
+TG_DUST_Q = mc("TG_Dust_q", Templates={"F1"}, Amts={1, 2}, MaxBids=3, Tmax=3, Jump=2, CapSet={5}, StartOffsets={0}, CreateUntil=0,
+               Bidders={"u2", "u3"}, Goals={"settle_fixed_after_dust_bid"}, tc_max=1500)
 TC_FIXEDI_Q = mc("TC_FixedI_q", WithInvalid=True, RejectSample=10, Templates={"F1"}, Amts={1, 3}, MaxBids=1, Tmax=5, Jump=3, CapSet={5}, StartOffsets={0},
                  CreateUntil=0, Bidders={"u2"})
 TC_FIXED_Q = mc("TC_Fixed_q", Templates={"F1", "F3"}, Amts={1, 2, 3}, MaxBids=2, Tmax=7, Jump=2, CapSet={3, 5}, StartOffsets={0, 1}, CreateUntil=1)
@@ -143,26 +147,26 @@ def scale(gens, f):
 
 PLANS = {
     "C01": dict(mc=[MC_BATCH_Q, MC_FIXED_Q], gen=GEN_GENERAL, tc=[TC_BATCH_Q, TC_FIXED_Q, TC_LIFE_Q], tc_max=1500),
-    "C02": dict(mc=[MC_BATCH_Q, MC_FIXED_Q], gen=GEN_GENERAL + GEN_PARAMS, tc=[TC_EXT_Q, TC_CANCEL_Q], tc_max=2500),
+    "C02": dict(mc=[MC_BATCH_Q, MC_FIXED_Q], gen=GEN_GENERAL + GEN_PARAMS, tc=[TC_EXT_Q, TC_CANCEL_Q, TG_DUST_Q], tc_max=2500),
     "C03": dict(mc=[MC_BATCH_Q], gen=GEN_GENERAL, tc=[TC_BATCH_Q, TC_EXT_Q, TG_SOLD0_Q, TG_SURPLUS_Q], tc_max=2500),
-    "C04": dict(mc=[MC_BATCH_Q, MC_FIXED_Q], gen=GEN_GENERAL, tc=[TC_BATCH_Q, TC_FIXED_Q, TC_FIXEDI_Q], tc_max=2000),
+    "C04": dict(mc=[MC_BATCH_Q, MC_FIXED_Q], gen=GEN_GENERAL, tc=[TC_BATCH_Q, TC_FIXED_Q, TC_FIXEDI_Q, TG_DUST_Q], tc_max=2000),
     "C05": dict(mc=[MC_BATCH_Q, MC_FIXED_Q], gen=GEN_GENERAL, tc=[TC_BATCH_Q, TC_FIXED_Q, TC_MULTIB_Q, TG_MULTI_Q, TG_SURPLUS_Q], tc_max=1500),
-    "C06": dict(mc=[MC_FIXED_Q], gen=GEN_GENERAL, tc=[TC_FIXED_Q, TC_FIXEDI_Q, TG_NEARF_Q, TG_SOLDOUT_Q], tc_max=3000),
+    "C06": dict(mc=[MC_FIXED_Q], gen=GEN_GENERAL, tc=[TC_FIXED_Q, TC_FIXEDI_Q, TG_NEARF_Q, TG_SOLDOUT_Q, TG_DUST_Q], tc_max=3000),
     "C07": dict(mc=[MC_LIFE_Q, MC_LIFE2_Q],
                 gen=GEN_GENERAL + [dict(g, name=g["name"] + "F", consts=dict(g["consts"], Faults={0, 1, 2, 3, 5, 8})) for g in GEN_MANY],
                 tc=[TC_LIFE_Q, TC_LIFE2_Q], tc_max=2500),
-    "C08": dict(mc=[MC_LIFE_Q, MC_LIFE2_Q], gen=GEN_GENERAL, tc=[TC_LIFE_Q, TC_LIFE2_Q, TC_EXT_Q], tc_max=2500),
+    "C08": dict(mc=[MC_LIFE_Q, MC_LIFE2_Q], gen=GEN_GENERAL, tc=[TC_LIFE_Q, TC_LIFE2_Q, TC_EXT_Q, TG_CLOSED_Q], tc_max=2500),
     "C09": dict(mc=[MC_LIFE_Q, MC_LIFE2_Q], gen=GEN_GENERAL + GEN_LONG[:1], tc=[TC_LIFE_Q, TC_LIFE2_Q, TC_FIXED_Q], tc_max=2000),
     "C10": dict(mc=[MC_INVALID1_Q, MC_INVALIDF_Q], gen=GEN_GENERAL, tc=[TC_FIXEDI_Q, TC_MODIFY_Q, TG_NEARF_Q], tc_max=2500),
-    "C11": dict(mc=[MC_BATCH_Q], gen=GEN_GENERAL, tc=[TC_MODIFY_Q, TG_NEARB_Q], tc_max=4000),
-    "C12": dict(mc=[MC_INVALID1_Q, MC_INVALIDF_Q], gen=GEN_GENERAL, tc=[TC_CANCEL_Q, TG_NEARF_Q], tc_max=2500),
+    "C11": dict(mc=[MC_BATCH_Q], gen=GEN_GENERAL, tc=[TC_MODIFY_Q, TG_NEARB_Q, TG_CLOSED_Q], tc_max=4000),
+    "C12": dict(mc=[MC_INVALID1_Q, MC_INVALIDF_Q], gen=GEN_GENERAL, tc=[TC_CANCEL_Q, TG_NEARF_Q, TG_CLOSED_Q], tc_max=2500),
     "C13": dict(mc=[MC_BATCH_Q], gen=GEN_GENERAL + GEN_LONG[1:] + GEN_PARAMS[:1], tc=[TC_EXT_Q, TC_EXT2_Q, TG_EXT_Q], tc_max=12000),
     "C15": dict(mc=[MC_GENESIS_Q], tc=[TC_GENESIS_Q], tc_max=3000, gen=[dict(g, consts=dict(g["consts"], WithGenesis=True, KindBag=("<-", "BagGenesis"),
                                                  Templates=set(g["consts"]["Templates"]) | {"Bx"})) for g in GEN_GENERAL]),
     "C16": dict(mc=[MC_BATCH_Q, MC_FIXED_Q], tc=[TC_EXT_Q, TG_SOLD0_Q], tc_max=2500,
                 gen=GEN_GENERAL + [dict(g, name=g["name"] + "Q", consts=dict(g["consts"], WithQueries=True, KindBag=("<-", "BagQueries")))
                                    for g in scale(GEN_GENERAL, 0.6)]),
-    "C18": dict(mc=[MC_INVALID1_Q, MC_INVALIDF_Q], gen=GEN_GENERAL + GEN_PARAMS + GEN_LONG[:1], tc=[TC_FIXEDI_Q, TC_MODIFY_Q, TG_NEARF_Q, TG_NEARB_Q, TG_SOLDOUT_Q], tc_max=2500),
+    "C18": dict(mc=[MC_INVALID1_Q, MC_INVALIDF_Q], gen=GEN_GENERAL + GEN_PARAMS + GEN_LONG[:1], tc=[TC_FIXEDI_Q, TC_MODIFY_Q, TG_NEARF_Q, TG_NEARB_Q, TG_SOLDOUT_Q, TG_CLOSED_Q], tc_max=2500),
     "C19": dict(mc=[MC_MULTI_Q], gen=GEN_GENERAL, tc=[TC_MULTI_Q, TC_MULTIB_Q, TG_MULTI_Q], tc_max=4000),
 }
 
